@@ -62,6 +62,30 @@ impl GenCfg {
     }
 }
 
+impl GenCfg {
+    /// A per-grammar variation of the configuration: mostly the base, sometimes deeper trees,
+    /// larger repetition counts, more rules (rarer and deeper shapes).
+    pub fn vary(&self, rng: &mut Rng) -> GenCfg {
+        let mut c = self.clone();
+        match rng.below(10) {
+            0 => {
+                c.max_depth = self.max_depth + 2;
+                c.max_count = self.max_count.max(8);
+            }
+            1 => {
+                c.max_rules = self.max_rules + 3;
+                c.max_count = self.max_count.max(6);
+            }
+            2 => {
+                c.max_depth = self.max_depth + 1;
+                c.shapes_pct = (self.shapes_pct + 25).min(70);
+            }
+            _ => {}
+        }
+        c
+    }
+}
+
 #[derive(Clone, Copy, PartialEq, Eq, Debug)]
 enum Need {
     /// anything
